@@ -61,33 +61,24 @@ Theorem C04_source_rules_give_no_legacy_required : forall f,
 Proof. exact source_rules_give_no_lr. Qed.
 Print Assumptions C04_source_rules_give_no_legacy_required.
 
-(* enumDescriptor.IsClosed: the code as it is disagrees with the runtime when enum_type is set to
-   ENUM_TYPE_UNKNOWN (accepted by the compiler); it agrees whenever every override is OPEN or CLOSED. *)
-Theorem C04_is_closed_eq_runtime_refuted :
-  exists e c, wf_enum e c = true /\ is_closed e c <> rt_is_closed e c.
-Proof. exact is_closed_eq_runtime_refuted_lemma. Qed.
-Print Assumptions C04_is_closed_eq_runtime_refuted.
+(* enumDescriptor.IsClosed agrees with the runtime for every enum of an accepted file, whatever values the
+   enum_type overrides have (ENUM_TYPE_UNKNOWN included). *)
+Theorem C04_is_closed_eq_runtime : forall e c,
+  wf_enum e c = true -> is_closed e c = rt_is_closed e c.
+Proof. exact is_closed_eq_runtime_lemma. Qed.
+Print Assumptions C04_is_closed_eq_runtime.
 
-Theorem C04_is_closed_eq_runtime_partial : forall e c,
-  wf_enum e c = true -> enum_type_known c = true -> is_closed e c = rt_is_closed e c.
-Proof. exact is_closed_eq_runtime_partial_lemma. Qed.
-Print Assumptions C04_is_closed_eq_runtime_partial.
-
-(* msgDescriptor.RequiredNumbers: the code as it is selects on the label and misses editions fields whose
-   presence resolves to LEGACY_REQUIRED. *)
-Theorem C04_required_numbers_eq_runtime_refuted :
-  exists fields, Forall (fun f => wf_field f = true) fields /\
-                 required_numbers fields = [] /\ rt_required_numbers fields = [1].
-Proof. exact required_numbers_eq_runtime_refuted_lemma. Qed.
-Print Assumptions C04_required_numbers_eq_runtime_refuted.
-
-Theorem C04_required_numbers_eq_runtime_partial : forall fields,
+(* msgDescriptor.RequiredNumbers agrees with the runtime for every message of well-formed fields, editions
+   fields with LEGACY_REQUIRED presence included. *)
+Theorem C04_required_numbers_eq_runtime : forall fields,
   Forall (fun f => wf_field f = true) fields ->
-  Forall (fun f => is_editions (f_edition f) = false \/
-                   (f_resolve f FieldPresence =? FP_LEGACY_REQUIRED) = false) fields ->
   required_numbers fields = rt_required_numbers fields.
-Proof. exact required_numbers_eq_runtime_partial_lemma. Qed.
-Print Assumptions C04_required_numbers_eq_runtime_partial.
+Proof. exact required_numbers_eq_runtime_lemma. Qed.
+Print Assumptions C04_required_numbers_eq_runtime.
+
+(* The code before the repairs (IsClosed == CLOSED, RequiredNumbers by label) is refuted in Proofs/Features.v:
+   is_closed_old_eq_runtime_refuted_lemma, required_numbers_old_eq_runtime_refuted_lemma (with the partial
+   results it did satisfy). *)
 
 (* non-vacuity: a well-formed editions field three levels deep whose presence comes from an override on the
    field itself, with different values further out *)
